@@ -56,14 +56,16 @@ TDoctor == /\ IsEvent("doctor") /\ Doctor(P) /\ Observed(Ev.obs)
 \* by renumbering is unnecessary because MaxIno is sized to the number of commits in a run
 Commit2(p) == CommitWhole(p)
 
+\* whether a commit of a handle without pending puts still goes through staging + rename depends on
+\* un-logged index state (a lexical flush pending after open): TLC infers it from the probe
 TCommit == /\ IsEvent("commit")
-           /\ IF h[P].st = "rw" /\ (h[P].dirty)
+           /\ IF h[P].st = "rw" /\ h[P].dirty
                 THEN Commit2(P) /\ last'.res = "ok" /\ ResOk
-                ELSE InPlace(P) /\ ResOk        \* nothing to commit: no staging, no rename
+                ELSE (Commit2(P) \/ InPlace(P)) /\ ResOk
            /\ Observed(Ev.obs)
 
 TVacuum == /\ IsEvent("vacuum")
-           /\ IF h[P].dirty THEN Commit2(P) ELSE InPlace(P)
+           /\ IF h[P].dirty THEN Commit2(P) ELSE (Commit2(P) \/ InPlace(P))
            /\ ResOk /\ Observed(Ev.obs)
 
 TClose == /\ IsEvent("close")
